@@ -237,7 +237,16 @@ impl Ctx {
     pub fn san(&self) -> bool {
         self.build == "san"
     }
-    /// Picks a count by tier.
+    /// A case count by tier, scaled: quick x2, thorough x6 relative to the numbers written at the call
+    /// site (those were sized when the monitors were first built; the machine has room for more).
+    pub fn count(&self, quick: u64, thorough: u64) -> u64 {
+        if self.quick() {
+            quick * 2
+        } else {
+            thorough * 6
+        }
+    }
+    /// Picks a value by tier.
     pub fn n(&self, quick: u64, thorough: u64) -> u64 {
         if self.quick() {
             quick
